@@ -746,10 +746,10 @@ where
         *single_item = num_items == 1;
         if *has_attr {
             match num_items {
-                0 => {}
-                1 => {
-                    fmt.write_str(" ")?;
-                }
+                // A single item is written without braces if it is a value and in braces if it
+                // is a slot (as for a record outside an attribute): that is decided when the
+                // item is written.
+                0 | 1 => {}
                 _ => {
                     strategy.attr_padding().fmt(fmt)?;
                     fmt.write_str("{")?;
@@ -788,6 +788,10 @@ where
             strategy.start_block(1).fmt(fmt)?;
             *brace_written = true;
         }
+        let unbraced_single_item = *has_attr && *single_item && !*brace_written;
+        if unbraced_single_item {
+            fmt.write_str(" ")?;
+        }
         if *first {
             *first = false;
         } else {
@@ -795,7 +799,11 @@ where
             strategy.item_padding(*brace_written).fmt(fmt)?;
         }
         let printer = StructurePrinter::new(fmt, *strategy);
-        value.write_with(printer)?;
+        if unbraced_single_item {
+            value.write_with(printer.single_item())?;
+        } else {
+            value.write_with(printer)?;
+        }
         Ok(self)
     }
 
@@ -808,10 +816,19 @@ where
             fmt,
             brace_written,
             first,
+            has_attr,
             strategy,
             ..
         } = &mut self;
-        if *first {
+        if *has_attr && !*brace_written {
+            // A single slot after attributes needs braces or the attributes are read as part of
+            // its key.
+            strategy.attr_padding().fmt(fmt)?;
+            fmt.write_str("{")?;
+            strategy.start_block(1).fmt(fmt)?;
+            *brace_written = true;
+            *first = false;
+        } else if *first {
             *first = false;
         } else {
             fmt.write_str(",")?;
